@@ -418,4 +418,8 @@ MUTANTS = [
     M("D1-4-flag-const", ["C08"], (FE, "            has_empty_player,", "            has_empty_player: false,"), base="D1-4"),
     M("mgb-advance-then-rollover", ["C02"], (FE, "            return Some(showdown);\n        }\n\n        if self.current_river_index < 48 {", "        }\n\n        if self.current_river_index < 48 {")),
     M("mgb-B1-2-helper-false", ["C02"], (FE, "                self.current_player_indexes[(i + 1)..].fill(0);\n\n                true", "                self.current_player_indexes[(i + 1)..].fill(0);\n\n                false"), base="B1-2"),
+    M("benign-B4-2-higher-order-helper", ["C05", "C08", "C09"], base="B4-2", benign=True),
+    M("B4-2-wrong-variant", ["C05"], (TK, "                RankPair::Suited(high, kicker) => expand_rank_range(\n                    RankRange::inclusive(kicker, end),\n                    |r| RankPair::Suited(high, r),", "                RankPair::Suited(high, kicker) => expand_rank_range(\n                    RankRange::inclusive(kicker, end),\n                    |r| RankPair::Ofsuit(high, r),"), base="B4-2"),
+    M("B4-2-wrong-range", ["C05"], (TK, "                RankPair::Pocket(rank) => expand_rank_range(\n                    RankRange::inclusive(Rank::Ace, rank),", "                RankPair::Pocket(rank) => expand_rank_range(\n                    RankRange::inclusive(Rank::King, rank),"), base="B4-2"),
+    M("B4-2-swapped-ops", ["C05"], (TK, "                    |r| RankPair::Ofsuit(high, r),\n                    probability,\n                ),\n            },\n            HandRangeTokenKind::DoubleClosedRankPairRange", "                    |r| RankPair::Ofsuit(r, high),\n                    probability,\n                ),\n            },\n            HandRangeTokenKind::DoubleClosedRankPairRange"), base="B4-2"),
 ]
